@@ -26,7 +26,8 @@ META = dict(
                'adsg_core.optimization.assign_enc.lazy_encoding.LazyEncoder.get_matrix / _get_validate_matrix',
                'every registered encoder\'s _decode* and every registered imputer\'s impute'],
     bounds=dict(declared_variables='<= 6', surplus_entries='0..2', vector_entries='any integer (unbounded)',
-                settings='<= 3x3 connectors', paths_per_instance='<= 20000', matrix_entries_onto='any non-negative integer'),
+                settings='<= 3x3 connectors', paths_per_instance='estimated <= 2500 (quick) / <= 12000 (thorough); larger instances are listed as deferred',
+                matrix_entries_onto='any non-negative integer'),
     outside=['instances with more than 6 declared variables or more than 20000 paths (skipped, listed)',
              'pattern encoders on settings they reject with InvalidPatternEncoder (documented)',
              'constraint-violation imputers: documented to return the all(-1) marker instead of a valid matrix; for them '
@@ -41,6 +42,7 @@ META = dict(
 INSTANCE_CAP_S = 200
 MAX_DV = 6
 QUICK_PATH_BUDGET = 2500
+THOROUGH_PATH_BUDGET = 12000
 
 
 # ---------------------------------------------------------------------------------------------------------------------
@@ -131,7 +133,7 @@ def settings_pool(tier, seed):
     rnd = random.Random(77+seed)
     out = pattern_settings()+[s for s in pool.named_settings() if s['name'] not in ('zero matrices',)]
     shapes = [(1, 2, 6), (2, 1, 4), (2, 2, 10), (2, 3, 3), (3, 2, 2), (1, 3, 3)] if tier == 'quick' else \
-        [(1, 1, 6), (1, 2, 25), (2, 1, 25), (2, 2, 60), (2, 3, 20), (3, 2, 20), (1, 3, 15), (3, 1, 10), (3, 3, 6)]
+        [(1, 1, 4), (1, 2, 12), (2, 1, 12), (2, 2, 30), (2, 3, 8), (3, 2, 8), (1, 3, 8), (3, 1, 6), (3, 3, 3)]
     for ns, nt, n in shapes:
         for _ in range(n):
             out.append(pool.random_settings(rnd, ns, nt, p_excl=0.25, p_mcp=0.05))
@@ -330,6 +332,10 @@ def run_instance(inst, tier='quick', seed=0):
         res['status'] = SKIPPED
         res['notes'].append(f'deferred to the thorough tier: ~{est*n_pat} paths estimated (> {QUICK_PATH_BUDGET})')
         return res
+    if tier == 'thorough' and est*n_pat > THOROUGH_PATH_BUDGET:
+        res['status'] = SKIPPED
+        res['notes'].append(f'outside the thorough budget: ~{est*n_pat} paths estimated (> {THOROUGH_PATH_BUDGET})')
+        return res
     is_cv = 'ConstraintViolation' in enc_name
     try:
         all_dvs = mgr.get_all_design_vectors()
@@ -365,7 +371,7 @@ def run_instance(inst, tier='quick', seed=0):
             if tier == 'quick':
                 ex = explore(run, max_paths=max(400, 4*est), time_cap_s=90, fanout_cap=max(40, max(n_opts+[0])+3))
             else:
-                ex = explore(run, max_paths=20000, time_cap_s=INSTANCE_CAP_S/2, fanout_cap=200)
+                ex = explore(run, max_paths=max(2000, 4*est), time_cap_s=INSTANCE_CAP_S, fanout_cap=200)
         finally:
             if k_pat == 0:
                 tracer.__exit__()
